@@ -4,8 +4,9 @@ import numpy as np
 RULE = ("K: (a) UniformGrid.resolve, RectilinearGrid.uniform(center=..) and QuasiUniformGrid.resolve for random "
         "centres, spacings (incl. <= 0) and cell counts -1..9 (odd, zero, negative) per axis: resolved edges compared with "
         "the model (1e-15) and with each other (bit-exact), error kinds exactly; (b) _resolve_grid_from_volume with the "
-        "volume given as lengths n*h, (n+1/2)*h (round-half-even ties), perturbed lengths: resolved shape vs model, all "
-        "policies; (c) _metric_scale / _backward_edge_average on resolved equal-width grids (flagged uniform, and with the "
+        "volume given as lengths n*h, (n+1/2)*h (round-half-even ties), perturbed lengths, under policy centres 0 / multiples "
+        "/ non-multiples of the spacing / negative / far away: resolved shape and edges of both policies vs round(L/h), vs "
+        "RectilinearGrid.uniform(shape, h, center) and vs the model; (c) _metric_scale / _backward_edge_average on resolved equal-width grids (flagged uniform, and with the "
         "flag forced off so that the general formula runs) and on stretched grids vs model (1e-12); time_step_duration vs "
         "the C37 model; (d) THE PROPERTY: place_objects + run_fdtd of a tiny random scene (even/odd shapes 4..8, per-axis "
         "boundary pairs from periodic / PEC-PMC / PML / mixed, plane or dipole source, dielectric block, Field + Energy + "
@@ -128,23 +129,55 @@ def run_resolution(ctx):
 
 
 # ------------------------------------------------------------------------- (b) volume -> shape
-def impl_cells(kind, lengths, h):
+def impl_cells(kind, lengths, h, center=(0.0, 0.0, 0.0)):
+    """_resolve_grid_from_volume for a volume declared by physical lengths; returns (shape, edges) or an error kind"""
     j = J()
     fd = j["fdtdx"]
-    grid = j["UG"](spacing=h) if kind == "uniform" else j["QG"](dx=h, dy=h, dz=h)
+    c = tuple(center)
+    grid = j["UG"](spacing=h, center=c) if kind == "uniform" else j["QG"](dx=h, dy=h, dz=h, center=c)
     cfg = fd.SimulationConfig(time=1e-15, grid=grid, backend="cpu", dtype=j["jnp"].float64)
     vol = fd.SimulationVolume(partial_real_shape=tuple(lengths))
     try:
         cfg2 = j["init"]._resolve_grid_from_volume([vol], cfg)
     except ValueError as ex:
         return err_kind(ex)
-    return [int(x) for x in cfg2.grid.shape]
+    return [int(x) for x in cfg2.grid.shape], [[float(x) for x in np.asarray(cfg2.grid.edges(a))] for a in range(3)]
+
+
+def cells_verdict(case):
+    """property on this level: a volume declared by lengths L gets round(L/h) cells centred on the policy's centre under
+    BOTH policies, i.e. exactly the explicit grid RectilinearGrid.uniform(shape, h, center)"""
+    j = J()
+    lengths, h, center = case["lengths"], case["h"], case.get("center", [0.0, 0.0, 0.0])
+    py = [round(L / h) for L in lengths]
+    try:
+        ex = j["RG"].uniform(tuple(py), h, center=tuple(center))
+        ex_edges = [[float(x) for x in np.asarray(ex.edges(a))] for a in range(3)]
+    except ValueError:
+        ex_edges = None
+    gu = impl_cells("uniform", lengths, h, center)
+    gq = impl_cells("quasi", lengths, h, center)
+    if isinstance(gu, str):
+        return None if ex_edges is None else f"uniform policy (center {center}) fails on lengths {lengths}: {gu}", gu, gq
+    if gu[0] != py:
+        return (f"volume lengths {lengths} at spacing {h}, policy centre {center}: uniform policy resolves {gu[0]} cells, "
+                f"round(L/h) = {py} (the explicit grid with the same spacings has {py})"), gu, gq
+    if ex_edges is not None and gu[1] != ex_edges:
+        return f"uniform policy (center {center}) resolves other edges than the explicit grid with the same spacings", gu, gq
+    if all(x % 2 == 0 for x in py):
+        if isinstance(gq, str) or gq[0] != py or gq[1] != gu[1]:
+            return (f"quasi-uniform policy (center {center}) resolves {gq if isinstance(gq, str) else gq[0]} for lengths "
+                    f"{lengths}, uniform policy / explicit grid {py}"), gu, gq
+    elif gq != "err-odd":
+        return f"quasi-uniform policy accepted odd counts {py}: {str(gq)[:80]}", gu, gq
+    return None, gu, gq
 
 
 def run_cells(ctx):
-    from .common import f2h
+    from .common import f2h, h2fs
     rng = ctx.rng
-    for i in range(ctx.scale(24, 200)):
+    dq = Deferred(ctx)
+    for i in range(ctx.scale(30, 200)):
         h = rng.choice([1.0, 0.1, 25e-9, 5e-8, 0.37, 1.23456789e-8])
         ns = [rng.randint(1, 5) * 2 for _ in range(3)]
         lengths = []
@@ -155,19 +188,31 @@ def run_cells(ctx):
                  "odd": (n + 1) * h}[t]
             lengths.append(L)
             tags.append(t)
-        reps = ctx.driver.ask_many([f"cells {f2h(L)} {f2h(h)}" for L in lengths])
-        exp = [int(r) for r in reps]
-        case = {"op": "cells", "lengths": lengths, "h": h}
-        ctx.case(sample=dict(case, model=exp) if i == 1 else None, nontrivial=("cells", tuple(tags)), op="cells",
-                 tag="/".join(sorted(set(tags))))
-        gu = impl_cells("uniform", lengths, h)
-        gq = impl_cells("quasi", lengths, h)
-        ctx.expect_equal("cells.uniform", case, gu, exp)
-        ctx.expect_equal("cells.quasi", case, gq, exp if all(x % 2 == 0 for x in exp) else "err-odd")
+        # policy centre: zero, multiples of the spacing, non-multiples, negative, far away - must never change a count
+        cmode = ["zero", "mult", "frac", "neg", "far", "mixed"][i % 6]
+        center = [{"zero": 0.0, "mult": rng.randint(1, 4) * h, "frac": rng.uniform(0.6, 3.7) * h,
+                   "neg": -rng.uniform(0.6, 5.3) * h, "far": rng.choice([-1, 1]) * 1e3 * h,
+                   "mixed": rng.choice([0.0, 2 * h, -1.3 * h, 0.77 * h])}[cmode] for _ in range(3)]
+        case = {"op": "cells", "lengths": lengths, "h": h, "center": center}
+        verdict, gu, gq = cells_verdict(case)
         ctx.impl_property_evals += 1
-        py = [round(L / h) for L in lengths]          # independent: the documented conversion
-        if gu != py or (not isinstance(gq, str) and gq != gu):
-            ctx.violation(case, f"volume lengths {lengths} at spacing {h}: uniform policy {gu}, quasi policy {gq}, round(L/h) {py}")
+        ctx.case(sample=dict(case, impl_uniform=gu if isinstance(gu, str) else gu[0]) if i in (1, 2) else None,
+                 nontrivial=("cells", tuple(tags), cmode), op="cells", tag="/".join(sorted(set(tags))), center=cmode)
+        if verdict:
+            ctx.violation(case, verdict)
+        for a in range(3):
+            for kind, g in (("uniform", gu), ("quasi", gq)):
+                def cmp(rep, kind=kind, g=g, a=a, case=case):
+                    if isinstance(g, str) or rep.startswith("err") or rep in ("invalid", "bad-op"):
+                        exp_err = g if isinstance(g, str) else "edges"
+                        # a whole-grid error may stem from another axis: only compare when this axis is the culprit
+                        if not (isinstance(g, str) and not rep.startswith("err") and rep not in ("invalid",)):
+                            ctx.expect_equal("cells." + kind, dict(case, axis=a), exp_err, rep)
+                    else:
+                        ctx.expect_close("cells." + kind, dict(case, axis=a), g[1][a], h2fs(rep), tol=1e-15,
+                                         floor=max(abs(case["h"]), abs(case["center"][a])))
+                dq.ask(f"resolvelen {kind} {f2h(center[a])} {f2h(h)} {f2h(lengths[a])}", cmp)
+    dq.flush()
 
 
 # ----------------------------------------------------------------------- (c) metric factors, dt
@@ -260,8 +305,10 @@ def gen_scene(rng, small=False):
         bt.append("periodic" if small and a < 2 else rng.choice(opts))
     h = rng.choice([5e-8, 2.5e-8, 1.23456789e-8, 1e-7])
     return {"op": "scene", "shape": shape, "h": h, "bt": bt, "src": rng.choice(["plane", "dipole"]),
-            "axis": rng.randint(0, 2), "T": rng.randint(8, 14), "vol": rng.choice(["real", "grid"]),
-            "center": [rng.choice([0.0, rng.uniform(-3, 3) * h]) for _ in range(3)],
+            "axis": rng.randint(0, 2), "T": rng.randint(8, 14), "vol": rng.choice(["real", "real", "grid"]),
+            # policy centre off the origin: multiples and non-multiples of the spacing, both signs, |c| > h/2 mostly
+            "center": [rng.choice([0.0, rng.randint(1, 3) * h, -rng.uniform(0.6, 3.4) * h, rng.uniform(0.6, 3.4) * h])
+                       for _ in range(3)],
             "shift": [rng.uniform(-20, 20) * h for _ in range(3)], "eps": rng.choice([1.0, 2.25, 4.0]),
             "sigma": rng.choice([0.0, 0.0, 50.0])}
 
@@ -367,6 +414,10 @@ def scene_verdict(sc, results):
     if isinstance(ref, str):
         return f"uniform-policy description fails on a valid scene: {ref}"
     odd = any(n % 2 for n in sc["shape"])
+    got_shape = [len(e) - 1 for e in ref["_edges"]]
+    if got_shape != list(sc["shape"]):
+        return (f"uniform policy (centre {sc['center']}, volume by {sc['vol']}) simulates {got_shape} cells, the declared "
+                f"volume / equivalent explicit grid has {sc['shape']}")
     scale = max(float(np.max(np.abs(ref["fd.fields"]))), 1e-30)
     for d, r in results.items():
         if d == "uniform":
@@ -408,6 +459,9 @@ def run_scenes(ctx):
     j = J()
     n = ctx.scale(2, 12)
     scenes = [gen_scene(ctx.rng, small=(i == 0)) for i in range(n)]
+    # the first scene always declares the volume by lengths under an off-origin centre (negative, non-multiple, multiple)
+    h0 = scenes[0]["h"]
+    scenes[0].update(vol="real", center=[2 * h0, -1.7 * h0, 0.9 * h0])
     dq = Deferred(ctx)
     for i, sc in enumerate(scenes):
         results, verdict = eval_scene(ctx, sc)
@@ -453,6 +507,20 @@ def search(ctx, hints):
                 ctx.violation(h, v)
                 return
     rng = ctx.rng.fork()
+    for h in hints:
+        if isinstance(h, dict) and h.get("op") == "cells":
+            v = cells_verdict(h)[0]
+            if v:
+                ctx.violation(h, v)
+                return
+    for hh in (1.0, 5e-8):                       # cheap level first: volume lengths under off-origin centres
+        for c in ([0.0, 0.0, 0.0], [2 * hh, 0.0, 0.0], [0.0, -1.7 * hh, 0.0], [0.0, 0.0, 0.9 * hh], [1e3 * hh] * 3):
+            case = {"op": "cells", "lengths": [4 * hh, 6 * hh, 8 * hh], "h": hh, "center": c}
+            ctx.impl_property_evals += 1
+            v = cells_verdict(case)[0]
+            if v:
+                ctx.violation(case, v)
+                return
     # smallest scenes first
     base = {"op": "scene", "shape": [4, 4, 4], "h": 5e-8, "bt": ["periodic"] * 3, "src": "dipole", "axis": 2, "T": 8,
             "vol": "real", "center": [0.0, 0.0, 0.0], "shift": [0.0, 0.0, 0.0], "eps": 1.0, "sigma": 0.0}
@@ -481,12 +549,7 @@ def replay(ctx, inp):
             return f"odd count: expected quasi to reject and the others to resolve: {str(got)[:300]}"
         return None
     if inp.get("op") == "cells":
-        gu = impl_cells("uniform", inp["lengths"], inp["h"])
-        gq = impl_cells("quasi", inp["lengths"], inp["h"])
-        py = [round(L / inp["h"]) for L in inp["lengths"]]
-        if gu != py or (not isinstance(gq, str) and gq != gu):
-            return f"volume lengths -> uniform {gu}, quasi {gq}, round(L/h) {py}"
-        return None
+        return cells_verdict(inp)[0]
     if inp.get("op") == "metric":
         j = J()
         jnp = j["jnp"]
